@@ -553,6 +553,17 @@ def rule_R11b(text, log):
     return pat.sub(repl, text)
 
 
+def rule_R11c(text, log):
+    """E.parse() (target type inferred as f64) -> parse_f64(&E) where E is a call expression"""
+    pat = re.compile(r'\b(str_remove_char\([^()]*\))\.parse\(\)')
+
+    def repl(m):
+        new = 'parse_f64(&%s)' % m.group(1)
+        log.append({'rule': 'R11c', 'before': m.group(0), 'after': new})
+        return new
+    return pat.sub(repl, text)
+
+
 def rule_R3(text, log):
     """generic writer instantiation"""
     pat = re.compile(r'<W: crate::TomlWrite \+ \?Sized>')
@@ -607,7 +618,7 @@ def rule_R5(text, log):
     return text
 
 
-RULES = {'R13': rule_R13, 'R14': rule_R14, 'R5c': (lambda text, log: text), 'R12': rule_R12, 'R11b': rule_R11b, 'R9': rule_R9, 'R10': rule_R10, 'R11': rule_R11, 'R1': rule_R1, 'R1f': rule_R1f, 'R3f': rule_R3f, 'R8': rule_R8, 'R2': rule_R2, 'R2b': rule_R2b, 'R7': rule_R7, 'R3': rule_R3, 'R4': rule_R4, 'R5': rule_R5}
+RULES = {'R11c': rule_R11c, 'R13': rule_R13, 'R14': rule_R14, 'R5c': (lambda text, log: text), 'R12': rule_R12, 'R11b': rule_R11b, 'R9': rule_R9, 'R10': rule_R10, 'R11': rule_R11, 'R1': rule_R1, 'R1f': rule_R1f, 'R3f': rule_R3f, 'R8': rule_R8, 'R2': rule_R2, 'R2b': rule_R2b, 'R7': rule_R7, 'R3': rule_R3, 'R4': rule_R4, 'R5': rule_R5}
 
 
 def strip_doc_comments(text):
@@ -1096,6 +1107,91 @@ def extract_unit(spec_path, repo, out_path, meta_path=None, canary=None):
                 'fn': item['name'], 'file': rel, 'line_start': line, 'line_end': src.line_of(b),
                 'sha256': hashlib.sha256(raw.encode()).hexdigest(), 'has_contract': True,
                 'loops': 0, 'slice': True, 'synthetic_signature': sig_text,
+            })
+        elif kind == 'dispatch_table':
+            # R15: the arms of a winnow `dispatch! {FIRST; PAT => PARSER, ..}` inside a function,
+            # as a pure table: an arm `PAT => empty.value(V)` (succeed with V, consume nothing)
+            # becomes `PAT => Some(V)`, every other arm `PAT => None`; the match is wrapped in the
+            # synthetic signature of the unit description.  Dropped: the combinators of the other
+            # arms, error contexts, and the stream (the table is a function of the dispatch byte).
+            fs, _, fo, fc = locate(src, 'fn', item['within_fn'], lo, hi)
+            lo_off, hi_off = src.tok(fo)[3], src.tok(fc)[2]
+            t = src.text
+            ms = list(re.finditer(r'dispatch!\s*\{\s*([A-Za-z_][A-Za-z0-9_():]*)\s*;', t[lo_off:hi_off]))
+            if len(ms) != 1:
+                raise LostAnchor('dispatch_table %s: %d dispatch! blocks in fn %s' % (item['name'], len(ms), item['within_fn']))
+            if ms[0].group(1) != item.get('first', 'any'):
+                raise LostAnchor('dispatch_table %s: dispatches on %s, not on %s' % (item['name'], ms[0].group(1), item.get('first', 'any')))
+            i = lo_off + ms[0].end()
+            # split the arms at top-level commas up to the closing brace of dispatch!
+            arms, depth, cur, j = [], 0, '', i
+            while True:
+                c = t[j]
+                if c in '"':
+                    k = j + 1
+                    while t[k] != '"':
+                        k += 2 if t[k] == '\\' else 1
+                    cur += t[j:k + 1]
+                    j = k + 1
+                    continue
+                if c == "'":
+                    mm = re.match(r"'(?:\\u\{[0-9a-fA-F]+\}|\\.|[^'\\])'", t[j:])
+                    if mm:
+                        cur += mm.group(0)
+                        j += mm.end()
+                        continue
+                if c in '({[':
+                    depth += 1
+                elif c in ')}]':
+                    if depth == 0:
+                        break
+                    depth -= 1
+                    if depth == 0 and c == '}' and '=>' in cur:
+                        cur += c
+                        arms.append(cur)
+                        cur = ''
+                        j += 1
+                        continue
+                if c == ',' and depth == 0:
+                    arms.append(cur)
+                    cur = ''
+                else:
+                    cur += c
+                j += 1
+            if cur.strip():
+                arms.append(cur)
+            line = src.line_of(i)
+            out_arms = []
+            for arm in arms:
+                if not arm.strip():
+                    continue
+                if '=>' not in arm:
+                    raise Unsupported('dispatch_table %s: cannot parse arm %r' % (item['name'], arm.strip()[:60]))
+                pat, rhs = arm.split('=>', 1)
+                mv = re.fullmatch(r"\s*empty\.value\((.+)\)\s*", rhs, re.S)
+                new_rhs = 'Some(%s)' % mv.group(1).strip() if mv else 'None'
+                out_arms.append('        %s => %s,' % (pat.strip(), new_rhs))
+                log.append({'rule': 'R15', 'before': ' '.join(arm.split())[:160], 'after': '%s => %s' % (pat.strip(), new_rhs),
+                            'fn': item['name'], 'file': rel, 'line': line})
+            raw = t[i:j]
+            sig_text = item['signature'].rstrip()
+            full = sig_text + ' {\n    match ' + item['scrutinee'] + ' {\n' + '\n'.join(out_arms) + '\n    }\n}'
+            ft = FnText(item['name'], full, line - 1)
+            if item['name'] in contracts['contract']:
+                ft.inject_contract(contracts['contract'][item['name']])
+                used_contract.add(item['name'])
+            if canary in ('*', item['name']):
+                ft.inserts.append((len(sig_text) + 3, '    assert(false); // CANARY\n'))
+            for tt, l in ft.render():
+                if isinstance(l, tuple):
+                    chunks.append((tt, ('@spec', l[1])))
+                else:
+                    chunks.append((tt, (rel, l) if l else None))
+            chunks.append(('\n\n', None))
+            functions.append({
+                'fn': item['name'], 'file': rel, 'line_start': line, 'line_end': src.line_of(j),
+                'sha256': hashlib.sha256(raw.encode()).hexdigest(), 'has_contract': True,
+                'loops': 0, 'slice': True, 'synthetic_signature': sig_text, 'dispatch_table': True,
             })
         else:
             raise Unsupported('unknown item kind %r' % kind)
